@@ -119,6 +119,9 @@ def _chunk(args: tuple) -> dict:
                 if isinstance(e, (KeyboardInterrupt, SystemExit)) and len(out["errors"]) > 3:
                     break
                 continue
+            if res.get("crashed") and not any(x["rule"].startswith(prop + ".") for x in res["violations"]):
+                out["errors"].append({"index": index, "error": "run crashed without a rule violation", "tb": res["crashed"]})
+                continue
             out["runs"] += 1
             out["faults"].update(res["faults"])
             out["probes"].update(res["probes"])
